@@ -30,6 +30,8 @@ def step (s : S) (w : List String) : S × String :=
   | ["after", _, _, b, _] => (s, (look s.digest b).getD "no-expectation")
   | ["serlong", _, _] => (s, "serial-complete=1 in-order=1")
   | ["serconc", _, _] => (s, "a-own-bytes=1 b-own-bytes=1")
+  | ["cfgs", _, _] => (s, "same")
+  | ["slowwriter", _, _, _, _] => (s, "same")
   | ["runcancelw", _, _] => (s, "whole-frames=1 display-cleanups=1")
   | _ => (s, "bad-op")
 
